@@ -17,7 +17,8 @@ from ..simdev.powhsm import PowHsm
 
 ABSENT = "<absent>"
 
-HEX_BAD = [None, True, 0, 1.5, "", "zz", "abc", [], {}, " ", "\n\t ", "0x"]
+HEX_BAD = [None, True, 0, 1.5, "", "zz", "abc", [], {}, " ", "\n\t ", "0x",
+           "\u0660\u0661", "a\u0663", "\uff11\uff12", "\u0967\u0968ab"]     # digits that are not ASCII
 
 
 def menus():
@@ -34,7 +35,7 @@ def menus():
         ("auth",): [ABSENT, None, "x", [], {}, 5],
         ("auth", "receipt"): [ABSENT] + HEX_BAD + ["aa bb"],
         ("auth", "receipt_merkle_proof"): [ABSENT, None, "aa", [], [5], [""], ["zz"], ["aa", 5],
-                                           [None], {}, [["aa"]], ["aa", "b"], ["aa bb"], [" "], ["aa", "\t"]],
+                                           [None], {}, [["aa"]], ["aa", "b"], ["aa bb"], [" "], ["aa", "\t"], ["\u0661\u0662"], ["aa", "b\u0669"]],
         ("auth", "foo"): ["bar"],
         ("message",): [ABSENT, None, "aa" * 32, [], {}, 5],
         ("message", "tx"): [ABSENT] + HEX_BAD + ["aabb", "01000000"],
